@@ -315,6 +315,45 @@ def handleWire (toks : List String) : String :=
       | _ => "bad-op"
   | _ => "bad-op"
 
+def parseGgmOp (tok : String) : Option Ggm.Op :=
+  match tok.splitOn ":" with
+  | ["e", h] => (Bytes.ofHex h).map .eval
+  | ["p", h] => (Bytes.ofHex h).map .puncture
+  | _ => none
+
+def parseGgmOps (s : String) : Option (List Ggm.Op) :=
+  if s = "-" ∨ s = "" then some [] else (s.splitOn ",").mapM parseGgmOp
+
+def ggmErr : Ggm.Err → String
+  | .noPrefixFound => "NoPrefixFound"
+  | .alreadyPunctured => "AlreadyPunctured"
+  | .badInputLength => "BadInputLength"
+  | .unexpectedEndOfBv => "UnexpectedEndOfBv"
+
+def ggmOut : Ggm.Out Bytes → String
+  | .evalRes (.ok v) => "ok:" ++ Bytes.toHexP v
+  | .evalRes (.error e) => "err:" ++ ggmErr e
+  | .punctRes (.ok _) => "ok"
+  | .punctRes (.error e) => "err:" ++ ggmErr e
+
+def bitsStr (b : Ggm.Bits) : String := String.ofList (b.map fun x => if x then '1' else '0')
+
+def ggmDump (k : Ggm.Key Bytes) : String :=
+  String.intercalate "|" (k.prefixes.map fun ps => bitsStr ps.1 ++ ":" ++ Bytes.toHexP ps.2)
+    ++ "#" ++ String.intercalate "|" (k.punctured.map bitsStr)
+
+/-- a whole history on the model (`Ggm.run`, the function the C10/C11 theorems are about) with the
+two STROBE PRGs of the implementation's key and its two first-level seeds -/
+def handleGgm (toks : List String) : String :=
+  match toks with
+  | ["ggm.hist", k0, k1, s0, s1, ops] =>
+    match Bytes.ofHex k0, Bytes.ofHex k1, Bytes.ofHex s0, Bytes.ofHex s1, parseGgmOps ops with
+    | some k0, some k1, some s0, some s1, some ops =>
+      let r := Ggm.run (Ggm.strobeG kF k0 k1) Params.ggmInpLen (Ggm.initKey s0 s1) ops
+      "ok " ++ String.intercalate ";" (r.2.map ggmOut ++ [ggmDump r.1])
+    | _, _, _, _, _ => "bad-op"
+  | _ => "bad-op"
+
 def handle (toks : List String) : String :=
   match toks with
   | ["keccak", h] =>
@@ -333,6 +372,7 @@ def handle (toks : List String) : String :=
     else if op.startsWith "adss." then handleAdss toks
     else if op.startsWith "star." ∨ op = "digest" then handleStar toks
     else if op.startsWith "wire." then handleWire toks
+    else if op.startsWith "ggm." then handleGgm toks
     else "bad-op"
   | _ => "bad-op"
 
